@@ -361,7 +361,7 @@ def glue_theorems(pid):
 
 
 # further property files of the same property (written in later rounds): every theorem in them is an obligation of that property
-EXTRA_FILES = {'C18': ['C18S', 'C18T'], 'C03': ['C03Q'], 'C13': ['C13B'], 'C16': ['C16B', 'C16W', 'C16A'], 'C12': ['C12S'], 'C01': ['C01P'], 'C04': ['C04C', 'C04R'], 'C07': ['C07M'], 'C10': ['C10A'], 'C15': ['C15Q', 'C15D'], 'C11': ['C11E']}
+EXTRA_FILES = {'C18': ['C18S', 'C18T'], 'C03': ['C03Q'], 'C13': ['C13B'], 'C16': ['C16B', 'C16W', 'C16A', 'C16G'], 'C12': ['C12S'], 'C01': ['C01P'], 'C04': ['C04C', 'C04R'], 'C07': ['C07M'], 'C10': ['C10A'], 'C15': ['C15Q', 'C15D'], 'C11': ['C11E']}
 
 
 def extra_modules(pid):
